@@ -1911,6 +1911,10 @@ func (ce *callEngine) callNativeFunc(ctx context.Context, m *wasm.ModuleInstance
 			offset := ce.popMemoryOffset(op)
 			switch op.B1 {
 			case v128LoadType128:
+				// The upper half is read at offset+8, which must not wrap around in 32 bits.
+				if uint64(offset)+8 > math.MaxUint32 {
+					panic(wasmruntime.ErrRuntimeOutOfBoundsMemoryAccess)
+				}
 				lo, ok := memoryInst.ReadUint64Le(offset)
 				if !ok {
 					panic(wasmruntime.ErrRuntimeOutOfBoundsMemoryAccess)
